@@ -7,6 +7,7 @@
 #include "Archive/ClmFile.h"
 #include <algorithm>
 #include <stdexcept>
+#include <unistd.h>
 
 using namespace OP2Utility;
 
@@ -74,7 +75,8 @@ struct ClmRoundtrip : Family {
 			static const char* EXT[] = {".wav", ".WAV", ".Wav", ".wAV"};
 			static const char* ODD[] = {".wave", ".w", "-", ".snd", ".WAVE"}; // "-" = no extension at all
 			w.set("name", nm).set("ext", r.chance(1, 12) ? ODD[r.below(5)] : EXT[r.below(4)]).set("dir", r.chance(1, 4) ? std::string("-") : "_w" + std::to_string(r.below(3))).set("cseed", hex64(r.next())).set("len", len)
-			 .set("fmt16", r.chance(1, 4) ? 1 : 0).set("cb", r.chance(1, 2) ? 0 : r.below(65536)).set("pre", r.chance(2, 3) ? 0 : r.range(1, 2)).set("mid", r.chance(2, 3) ? 0 : r.range(1, 2)).set("post", r.chance(1, 2) ? 0 : r.range(1, 3)).set("sp", r.below(5));
+			 .set("fmt16", r.chance(1, 4) ? 1 : 0).set("cb", r.chance(1, 2) ? 0 : r.below(65536)).set("pre", r.chance(2, 3) ? 0 : r.range(1, 2)).set("mid", r.chance(2, 3) ? 0 : r.range(1, 2)).set("post", r.chance(1, 2) ? 0 : r.range(1, 3)).set("sp", r.below(7));
+			if (r.chance(1, 10)) w.set("link", 1);
 			p.world.push_back(w);
 		}
 		for (size_t i = p.world.size(); i > 2; --i) std::swap(p.world[i - 1], p.world[1 + r.below(i - 1)]);
@@ -159,9 +161,16 @@ struct ClmRoundtrip : Family {
 			std::string fname = !rawName.empty() ? rawName : in.base + (l.get("ext", ".wav") == "-" ? std::string() : l.get("ext", ".wav"));
 			std::string onDisk = dir.empty() ? fname : dir + "/" + fname;
 			if (!dir.empty()) disk::mkdirs(dir + "/_s");
-			disk::put(onDisk, bytes);
+			if (l.u("link", 0)) {
+				// the listed path is a symbolic link to the file holding the bytes
+				std::string real = "_real" + std::to_string(ins.size());
+				disk::put(dir.empty() ? real : dir + "/" + real, bytes);
+				if (symlink(real.c_str(), onDisk.c_str()) != 0) throw std::runtime_error("symlink failed");
+				ctx.count("probe.input_is_symlink");
+			} else disk::put(onDisk, bytes);
 			uint64_t sp = l.u("sp", 0);
-			if (dir.empty()) in.path = (sp % 2) ? "./" + fname : fname;
+			if (sp % 7 == 6) in.path = disk::scratchRoot() + "/" + onDisk; // absolute
+			else if (dir.empty()) in.path = (sp % 2) ? "./" + fname : fname;
 			else switch (sp % 5) { case 0: in.path = dir + "/" + fname; break; case 1: in.path = "./" + dir + "/" + fname; break; case 2: in.path = dir + "//" + fname; break; case 3: in.path = dir + "/./" + fname; break; default: in.path = dir + "/_s/../" + fname; break; }
 			in.data = w.data;
 			ins.push_back(in);
